@@ -56,6 +56,7 @@ inductive Err where
   | zeroDivision   -- ZeroDivisionError  (`size / hop` with hop = 0, `1 / ceil(0)`)
   | maxEmpty       -- ValueError  `max()` of an empty iterable (hop = 0 with a window)
   | numpyMissing   -- ModuleNotFoundError: a numpy default is needed and numpy is not installed
+  | windowItems    -- TypeError from the first arithmetic on a window item that is not a number
   deriving DecidableEq, Repr
 
 def Err.kind : Err → String
@@ -65,6 +66,7 @@ def Err.kind : Err → String
   | .zeroDivision => "ZeroDivisionError"
   | .maxEmpty => "ValueError"
   | .numpyMissing => "ImportError"
+  | .windowItems => "TypeError"
 
 def Err.tag : Err → String
   | .windowType => "window-type"
@@ -73,6 +75,7 @@ def Err.tag : Err → String
   | .zeroDivision => "zero-division"
   | .maxEmpty => "max-empty"
   | .numpyMissing => "numpy-default"
+  | .windowItems => "window-items"
 
 /-! ### the `wnd` argument -/
 
